@@ -566,15 +566,11 @@ func mustPassInIteration(target ssa.Instruction, eval func(cond ssa.Value) (know
 		return "no loop around the mutator call"
 	}
 	inLoop := func(x *ssa.BasicBlock) bool { return header.Dominates(x) && (x == header || blockReaches(x, header)) }
-	var start *ssa.BasicBlock
-	for _, s := range header.Succs {
-		if inLoop(s) && s != header {
-			start = s
-		}
-	}
+	start := loopBodyStart(header) // the header itself in a rotated loop (range over an integer)
 	if start == nil {
 		return "loop body not found"
 	}
+	rotated := start == header
 	// a condition computed into a named boolean first (a && b, a || b, possibly hoisted out of the loop) has a value
 	// when all edges that are possible under the known conditions agree
 	var evalNamed func(c ssa.Value, at *ssa.BasicBlock, d int) (bool, bool)
@@ -588,6 +584,35 @@ func mustPassInIteration(target ssa.Instruction, eval func(cond ssa.Value) (know
 		}
 		if k, isK := constBool(c2); isK {
 			return k == pol, true
+		}
+		// "f, ok := lookUpHelper(…)": ok evaluated in the helper under the same known conditions
+		if ex, isEx := c2.(*ssa.Extract); isEx {
+			if hc, isCall := ex.Tuple.(*ssa.Call); isCall {
+				switch predicate3Idx(hc, ex.Index, func(w ssa.Value) bool3 {
+					if known, val := eval(w); known {
+						return b3(val)
+					}
+					return bUnknown
+				}, 0) {
+				case bTrue:
+					return pol, true
+				case bFalse:
+					return !pol, true
+				}
+			}
+		}
+		if hc, isCall := c2.(*ssa.Call); isCall && predicateCallee(hc) != nil {
+			switch predicate3(hc, func(w ssa.Value) bool3 {
+				if known, val := eval(w); known {
+					return b3(val)
+				}
+				return bUnknown
+			}, 0) {
+			case bTrue:
+				return pol, true
+			case bFalse:
+				return !pol, true
+			}
 		}
 		ph, isPhi := c2.(*ssa.Phi)
 		if !isPhi {
@@ -637,7 +662,7 @@ func mustPassInIteration(target ssa.Instruction, eval func(cond ssa.Value) (know
 		if x == b {
 			return // reached the call
 		}
-		if x == header || !inLoop(x) {
+		if (x == header && !(rotated && steps == 0)) || !inLoop(x) || (rotated && isLatch(x, start)) {
 			escape = fmt.Sprintf("a path of the iteration reaches block %d (%s) without the call", x.Index, x.Comment)
 			return
 		}
